@@ -52,6 +52,12 @@ func runC02(c *Ctx) {
 	c01RootRelocation(c, "C02.12")
 	ruleLogReader(c, "C02.13")
 	c01RowIDs(c, "C02.14")
+	ruleRecoveryVisitsAll(c, "C02.15")
+	ruleSentinelWrapped(c, "C02.17", "storage")
+	ruleStampHasRecord(c, "C02.18")
+	c04PageLSN(c, "C02.19")
+	ruleListIterationStable(c, "C02.20")
+	ruleErrorsNotDropped(c, "C02.16", "storage.(*BTree).insert", "storage.(*RelationService).Insert", "storage.(*RelationService).MarkDeleted", "storage.(*RelationService).FlushWALBatch")
 }
 
 // ---- C02.11 -------------------------------------------------------------------------
